@@ -1121,6 +1121,8 @@ pub struct PairCfg {
     pub cid_len: usize,
     /// CID length of the server endpoint, when different from the client's (`cid_len`)
     pub server_cid_len: Option<usize>,
+    /// the server advertises a preferred address (which costs it one more connection ID per connection)
+    pub preferred_address: bool,
     pub cid_lifetime: Option<Duration>,
     pub cert_len: usize,
     pub retry: bool,
@@ -1152,6 +1154,7 @@ impl Default for PairCfg {
             server: TCfg::default(),
             cid_len: 8,
             server_cid_len: None,
+            preferred_address: false,
             cid_lifetime: None,
             cert_len: 1500,
             retry: false,
@@ -1196,6 +1199,9 @@ pub fn server_config(cfg: &PairCfg, keylog: Arc<mtls::KeyLog>, time: Arc<SimTime
     sc.transport_config(Arc::new(cfg.server.build()));
     sc.migration(cfg.migration);
     sc.retry_token_lifetime(cfg.retry_token_lifetime);
+    if cfg.preferred_address {
+        sc.preferred_address_v6(Some(std::net::SocketAddrV6::new("2001:db8::77".parse().unwrap(), 4477, 0, 0)));
+    }
     sc.time_source(time);
     let mut vt = proto::ValidationTokenConfig::default();
     vt.sent(cfg.tokens_sent);
